@@ -326,7 +326,11 @@ sqf::runtime::runtime::result sqf::runtime::runtime::execute(sqf::runtime::runti
                 for (size_t i = 0; i < m_contexts.size(); i++)
                 {
                     m_context_active = m_contexts[i];
-                    if (m_context_active->suspended())
+                    if (m_context_active->terminate())
+                    { // terminated by `terminate`: the script gets no further slice and is dropped like a finished one
+                        res = result::empty;
+                    }
+                    else if (m_context_active->suspended())
                     {
                         if (m_context_active->wakeup_timestamp() <= std::chrono::system_clock::now())
                         {
